@@ -29,3 +29,14 @@ package compiler
 //@   property C01 C05
 //@   requires c != nil && to >= 0 && to <= len(c.bytecode)
 //@   ensures[lands-at-to] len(r) == 2 && len(c.bytecode) + 3 - (int(r[0]) + 256*int(r[1])) == to
+
+// constants are laid out in emission order; an index handed out earlier never changes (C05, C09)
+//@ func compiler.compiler.makeConstant returns r
+//@   property C05 C09
+//@   mode panics
+//@   requires c != nil && i != nil
+//@   ensures[len] len(r) == 2
+//@   ensures[in-range] int(r[0]) + 256*int(r[1]) < len(c.constants) && len(c.constants) <= 65535 + 1
+//@   ensures[holds] c.constants[int(r[0]) + 256*int(r[1])] == i
+//@   ensures[grows] len(c.constants) >= old(len(c.constants)) && len(c.constants) <= old(len(c.constants)) + 1
+//@   ensures[stable] forall(k, 0, old(len(c.constants)), c.constants[k] == old(c.constants[k]))
